@@ -232,7 +232,7 @@ func init() {
 	core.Register(&core.Prop{
 		ID:    "C12",
 		Title: "Deserializing replaces content, keeps the container sound, is atomic on error",
-		Cases: func(tier string) int { return tierN(tier, 21000, 1050000) },
+		Cases: func(tier string) int { return tierN(tier, 63000, 2100000) },
 		Run:   runC12,
 		Rule: "one (prior state, input) pair per case, cycling through all 21 kinds and element types; prior states empty, small, big, full wrapped ring; inputs from ten families: well-formed documents of the container's type (incl. duplicate keys, duplicate values for bidirectional maps, " +
 			"arrays longer than the ring capacity, \\u-escaped keys), the same with the element at the first/middle/last position replaced by a value of another JSON type (overflowing numbers, floats, null, nested), a literal corpus (null, [], {}, [null], truncated and malformed texts, BOM), " +
